@@ -211,6 +211,8 @@ def run(ctx):
     r2 = ctx.rule("C03.R2", "CMP: thresholds in alpha are the published ones and agree fast<->slow; outer positive regime depends on up-side data only, outer negative regime on down-side data only", "CMP", floor=10)
     r3 = ctx.rule("C03.R3", "FILL (deviant belief): no element-wise `x +/- <attribute that is provably all zeros>` in __call__ (the author believed the operand was something else)", "FILL", floor=5)
     r5 = ctx.rule("C03.R5", "ALG: polynomial identities per region: fast == slow; neutral at alpha=0; up variation at +1, down at -1; continuity at every threshold (and of first and second formal derivative for codes 4, 4p); extrapolation uses the matching side", "ALG", floor=40)
+    r7 = ctx.rule("C03.R7", "AXES/HISTORY: each vectorised code interpreted END TO END on a 2 systematics x 2 samples x 3 variations x 2 bins histogram set (list tensors): every cell (systematic, sample, alpha column, bin) of the result equals the scalar reference function of the same file applied to that cell's (down, nominal, up) and that systematic's alpha -- for alpha sets mixing all regimes and the breakpoints, and again after calls with other alpha-set shapes on the SAME interpolator", "AXES", floor=10)
+    _axes_and_history(ctx, r7, repo, prs)
     r4 = ctx.rule("C03.R4", "FOLD: each A_inverse literal times the defining matrix (rows f(a0), f(-a0), f'(a0), f'(-a0), f''(a0), f''(-a0) of sum a_i alpha^i) is the identity, symbolically in alpha0; rhs vector is [u^a0-1, d^a0-1, ln u u^a0, -ln d d^a0, ln^2 u u^a0, ln^2 d d^a0]", "FOLD", floor=2)
 
     kinds = {}
@@ -686,3 +688,74 @@ def _whitelists(ctx, rid, kinds):
                 ctx.undecided(rid, f"{rel}::{cname}: {code}", "kind of this code not established")
             else:
                 ctx.violated(rid, init, node, f"{cname} accepts interpolation code `{code}` which is {k} (neutral element {'1' if k == 'multiplicative' else '0'}), but the modifier is {want}", expected=f"only {want} codes")
+
+
+def _axes_and_history(ctx, rid, repo, prs):
+    from .. import listnp
+    from ..alg import AutoRegion, Obj, PyFunc, same_value
+    from ..objmodel import World
+    at = Poly.atom
+    F_ = Fraction
+    # alpha values per call: (shape columns) -> [[row of systematic 0], [row of systematic 1]]
+    calls = [
+        ("mixed regimes", [[F_(1, 2), F_(-3, 2)], [F_(5, 2), F_(-1, 3)]]),
+        ("one column", [[F_(-7, 2)], [F_(3, 4)]]),
+        ("three columns with breakpoints", [[F_(1), F_(0), F_(-1)], [F_(-1), F_(2), F_(0)]]),
+        ("mixed regimes again (after other shapes)", [[F_(-5, 4), F_(3, 2)], [F_(1, 4), F_(-9, 2)]]),
+    ]
+    for code, fast, slow, _node in sorted(prs, key=lambda t: str(t[0])):
+        ext = listnp.externals()
+        ext.update({"subscribe": lambda a, k: PyFunc(lambda a2, k2: None, "subscriber"), "get_backend": lambda a, k: (Obj("tensorlib"), None)})
+        region = AutoRegion()
+        w = World(ext, region=region, module_env={"pyhf": Obj("pyhf", {"default_backend": Obj("default_backend")}), "events": Obj("events"), "math": Obj("math")})
+        w.add_class(fast).add_class(slow)
+        for m_ in list(fast.methods.values()) + list(slow.methods.values()):
+            ctx.touch(m_)
+        hs = [[[[at(f"h_s{s_}_h{h_}_v{v_}_b{b_}") for b_ in range(2)] for v_ in range(3)] for h_ in range(2)] for s_ in range(2)]
+        km = slow_kernel(slow)
+        fname = km.node.name if km is not None else None
+        if fname is None:
+            ctx.unrecognised(rid, slow, f"{slow.name}", "scalar reference function (summand/product) not found")
+            continue
+        try:
+            inst = w.new(fast, [hs], {"subscribe": False})
+            ref = w.new(slow, [hs], {})
+        except (Undecided, KeyError, TypeError, ValueError, IndexError, AttributeError) as e:
+            ctx.unrecognised(rid, fast, f"{fast.name} constructor", f"not interpretable: {type(e).__name__}: {e}")
+            continue
+        for ci, (lab, rows) in enumerate(calls):
+            names = [[f"al_c{ci}_s{s_}_a{a_}" for a_ in range(len(rows[s_]))] for s_ in range(2)]
+            for s_ in range(2):
+                for a_, v_ in enumerate(rows[s_]):
+                    region[names[s_][a_]] = v_
+            pinned = {n: region[n] for row in names for n in row}
+            site = f"{fast.relpath}::{fast.name}.__call__ [{lab}]"
+            try:
+                out = w.call_method(inst, "__call__", [listnp.T([[at(n) for n in row] for row in names])])
+                shp = listnp._shape(out)
+                if shp != (2, 2, len(rows[0]), 2):
+                    ctx.violated(rid, fast.methods["__call__"], f"{fast.name} result shape [{lab}]", "the result is not (systematics, samples, alpha columns, bins) for THIS call's alpha set" + ("" if ci == 0 else ": tensors prepared for an earlier alpha-set shape leak into it"), expected=str((2, 2, len(rows[0]), 2)), found=str(shp))
+                    continue
+                bad = None
+                und = None
+                ncell = 0
+                for s_ in range(2):
+                    for h_ in range(2):
+                        for a_ in range(len(rows[s_])):
+                            for b_ in range(2):
+                                want = w.call_method(ref, fname, [hs[s_][h_][0][b_], hs[s_][h_][1][b_], hs[s_][h_][2][b_], at(names[s_][a_])])
+                                got = out[s_][h_][a_][b_]
+                                sv = same_value(got, want, pinned=pinned)
+                                ncell += 1
+                                if sv is False and bad is None:
+                                    bad = (s_, h_, a_, b_, rows[s_][a_], str(to_poly(got))[:160], str(to_poly(want))[:160])
+                                elif sv is None and und is None:
+                                    und = (s_, h_, a_, b_)
+                if bad:
+                    ctx.violated(rid, fast.methods["__call__"], f"{fast.name} cell values [{lab}]", f"cell (systematic {bad[0]}, sample {bad[1]}, alpha column {bad[2]}, bin {bad[3]}) at alpha = {bad[4]} is not the scalar reference value for that cell's (down, nominal, up): the vectorised code mixes axes, variations or regimes" + ("" if ci == 0 else ", or reuses tensors prepared for an earlier alpha-set shape"), expected=bad[6], found=bad[5])
+                elif und:
+                    ctx.unrecognised(rid, fast.methods["__call__"], f"{fast.name} [{lab}]", f"cell {und} not comparable numerically")
+                else:
+                    ctx.holds(rid, site, f"{ncell} cells equal the scalar reference")
+            except (Undecided, KeyError, TypeError, ValueError, IndexError, AttributeError) as e:
+                ctx.unrecognised(rid, fast.methods["__call__"], f"{fast.name}.__call__ [{lab}]", f"not interpretable: {type(e).__name__}: {e}")
